@@ -68,7 +68,10 @@ def check_C10(fx, eng, rep, tier):
                        'function is called, the upgrade write is certified on a word with S=0, and the returned guard owns the saved lock.')
     rep.rule_text = 'C10.UPG, C10.DOWN, C10.NOGAP, C07.CONV, MCS.CONV per conversion function and path'
     rep.trusted = ['clang 14 AST/CFG', 'field abstraction of the lock word', 'C01 invariant']
-    _locks(fx, eng, rep, ALL_LOCKS, ['C10.', 'C07.CONV', 'MCS.CONV', 'MCS.UPG', 'MCS.DOWN'], {'PessimisticLock': 8, 'OptimisticLock': 8, 'MCSLock': 6})
+    # the downgrade is a plain store (word locks): it is a single atomic step only because nobody but the X holder writes the
+    # word while X is set, i.e. every other write is certified on X = 0 (C01.ADM / C01.ROWS / C01.STORE of the same class)
+    _locks(fx, eng, rep, ALL_LOCKS, ['C10.', 'C07.CONV', 'MCS.CONV', 'MCS.UPG', 'MCS.DOWN', 'C01.ADM', 'C01.ROWS', 'C01.STORE'],
+           {'PessimisticLock': 8, 'OptimisticLock': 8, 'MCSLock': 6})
 
 
 def check_C07(fx, eng, rep, tier):
@@ -146,6 +149,9 @@ def check_C03(fx, eng, rep, tier):
     for f in m.fns.values():
         if f.get('_feasible_paths') is not None:
             rep.saw_fn(f)
+    # a validation that succeeds because the guard "holds a shared grant" needs that grant to be held: typestate of the guards
+    import guards
+    guards.check_guards(fx, eng, rep, ['OptimisticLock'], res, typestate_only=True)
     rep.floor('C03 obligations', n, 20)
 
 
@@ -168,6 +174,9 @@ def check_C09(fx, eng, rep, tier):
     for f in m.fns.values():
         if f.get('_feasible_paths') is not None:
             rep.saw_fn(f)
+    # the version to publish travels with the exclusive guard: its move operations carry every member over
+    import guards
+    guards.check_guards(fx, eng, rep, ['OptimisticLock'], res, only=('XGuard',), typestate_only=True)
     rep.floor('C09 obligations', n, 30)
 
 
@@ -190,7 +199,9 @@ def check_C12(fx, eng, rep, tier):
     rep.rule_text = 'C12.ACQ / C12.REL / C12.UAR / C12.TLS per function and path'
     rep.trusted = ['clang 14 AST/CFG', 'field abstraction', 'protocol invariant: a member counted in the successor word keeps the successor from finishing (C01)']
     rep.assumptions = ['not decided: stale pointers held by another thread (protocol-level argument)']
-    _locks(fx, eng, rep, ['MCSLock'], ['C12.'], {'MCSLock': 12})
+    # the recycle decision is taken on the word the release write certified: a release that clears more than its own
+    # contribution (MCS.CLR) hands the node back while other members still refer to it
+    _locks(fx, eng, rep, ['MCSLock'], ['C12.', 'MCS.CLR'], {'MCSLock': 12})
 
 
 def check_C02(fx, eng, rep, tier):
@@ -201,7 +212,10 @@ def check_C02(fx, eng, rep, tier):
     rep.rule_text = 'C02.SPIN / C02.SPINFN / C02.HANDOFF / C02.PUBSTORE + C01.REL / MCS.CLR / C07.CONV'
     rep.trusted = ['clang 14 AST/CFG', 'field abstraction']
     rep.assumptions = ['liveness itself (fair schedules) is not decided; these are necessary conditions']
-    _locks(fx, eng, rep, ALL_LOCKS, ['C02.', 'C01.REL', 'MCS.CLR', 'C07.CONV', 'C01.ROWS'], {'PessimisticLock': 10, 'OptimisticLock': 14, 'MCSLock': 14})
+    res = _locks(fx, eng, rep, ALL_LOCKS, ['C02.', 'C01.REL', 'MCS.CLR', 'C07.CONV', 'C01.ROWS'], {'PessimisticLock': 10, 'OptimisticLock': 14, 'MCSLock': 14})
+    # a grant that is released twice (or never) leaves the word non-free for ever: the guard typestate is a necessary condition of progress
+    import guards
+    guards.check_guards(fx, eng, rep, ALL_LOCKS, res, typestate_only=True)
 
 
 # ---------------------------------------------------------------------------------- thread / epoch
@@ -318,7 +332,7 @@ def check_C16(fx, eng, rep, tier):
                        'skips only the sentinel and expired slots and appends cur+1 and cur unconditionally, so without guards the list is {cur+1, cur}.')
     rep.rule_text = 'C16.INIT / C16.STEP / C16.MIN / C16.SORT + C04.SCAN / C04.ENTER / C04.PUBLISH'
     rep.trusted = ['clang 14 AST/CFG', 'single coordinator', 'std::sort/unique/erase semantics']
-    n = _take(rep, sink, ['C16.', 'C04.SCAN', 'C04.ENTER', 'C04.PUBLISH', 'C04.GUARD'])
+    n = _take(rep, sink, ['C16.', 'C04.SCAN', 'C04.ENTER', 'C04.PUBLISH', 'C04.GUARD', 'C20.ALLOC', 'C17.OWN'])
     _thread_fns(rep, fx, EPOCH_TUS)
     rep.floor('C16 obligations', n, 15)
 
@@ -334,7 +348,7 @@ def check_C17(fx, eng, rep, tier):
                        'stalled between reading the global epoch and publishing its pin (documented observation O2).')
     rep.rule_text = 'C17.OWN / C17.CONST / C17.FREE / C17.PUB / C17.SHARED + C20.UAF + C04.SCAN / C16.SORT (shape of the list)'
     rep.trusted = ['clang 14 AST/CFG', 'clang++ for the witness', 'single coordinator']
-    n = _take(rep, sink, ['C17.', 'C20.UAF', 'C04.SCAN', 'C16.SORT', 'C04.PUBLISH', 'C16.STEP', 'C04.BIND', 'C04.GUARD', 'C04.ENTER'])
+    n = _take(rep, sink, ['C17.', 'C20.UAF', 'C20.ALLOC', 'C04.SCAN', 'C16.SORT', 'C04.PUBLISH', 'C16.STEP', 'C04.BIND', 'C04.GUARD', 'C04.ENTER'])
     from witness import run_witness
     w = run_witness(fx.flags, ['dbgroup/thread/epoch_manager.hpp'],
                     [('second is const vector&', 'std::is_same_v<decltype(std::declval<dbgroup::thread::EpochManager &>().GetProtectedEpochs().second), const std::vector<size_t> &>', '')])
@@ -351,10 +365,10 @@ def check_C20(fx, eng, rep, tier):
                        'in the constructor, each becoming the head linked to the previous head. NODE.FREE: unlink before delete, never the head, no access afterwards. DTOR.WALK: the '
                        'destructor starts at the head, reads next before deleting each node, deletes each visited node once and stops at null. Not decided: the retention bound of '
                        'RemoveOutDatedLists (depends on runtime epochs).')
-    rep.rule_text = 'C20.ALLOC / C20.WALK / C20.UAF + C17.FREE + C04.SCAN / C16.SORT / C16.MIN'
+    rep.rule_text = 'C20.ALLOC / C20.WALK / C20.UAF + C17.FREE / C17.OWN (node lookup) + C04.SCAN / C04.PUBLISH / C16.SORT / C16.MIN'
     rep.trusted = ['clang 14 AST/CFG', 'std::sort/unique/erase semantics']
     rep.assumptions = ['the retention bound is not decided']
-    n = _take(rep, sink, ['C20.', 'C17.FREE', 'C04.SCAN', 'C16.SORT', 'C16.MIN', 'C04.GUARD', 'C04.ENTER'])
+    n = _take(rep, sink, ['C20.', 'C17.FREE', 'C17.OWN', 'C04.SCAN', 'C04.PUBLISH', 'C16.SORT', 'C16.MIN', 'C04.GUARD', 'C04.ENTER'])
     _thread_fns(rep, fx, EPOCH_TUS)
     rep.floor('C20 obligations', n, 15)
 
